@@ -1130,7 +1130,21 @@ pub fn child18(seed: u64, idx: u64) -> Value {
                 .min(1 << 12);
                 let precision = if rng.chance(1, 3) { odd(&mut rng, 12, 15) } else { 1 + rng.usize_below(15) };
                 let shift = *rng.pick(&[0i8, 1, 5, 14, 15, 16, 31, 32, -1, -16, -17, 127, -128]);
-                let coefs: Vec<i16> = (0..len).map(|_| match rng.usize_below(6) { 0 => i16::MAX, 1 => i16::MIN, 2 => 0, _ => rng.range(-2000, 2000) as i16 }).collect();
+                // (values exactly on the two's-complement limits of the precision included:
+                // -2^(p-1) is the smallest coefficient that fits, +2^(p-1) does not fit)
+                let edge = 1i32 << (precision.clamp(1, 15) - 1);
+                let coefs: Vec<i16> = (0..len)
+                    .map(|_| match rng.usize_below(9) {
+                        0 => i16::MAX,
+                        1 => i16::MIN,
+                        2 => 0,
+                        3 => edge.min(i16::MAX as i32) as i16,
+                        4 => (edge - 1) as i16,
+                        5 => (-edge) as i16,
+                        6 => (-edge - 1).max(i16::MIN as i32) as i16,
+                        _ => rng.range(-2000, 2000) as i16,
+                    })
+                    .collect();
                 desc = format!("QuantizedParameters::new(coefs.len={len}, order={order}, shift={shift}, precision={precision})");
                 if let Ok(c) = QuantizedParameters::new(&coefs, order, shift, precision) {
                     accepted = true;
@@ -1249,7 +1263,9 @@ pub fn child18(seed: u64, idx: u64) -> Value {
             7 => {
                 let bs = if rng.chance(1, 2) { odd(&mut rng, 192, 32767) } else { 1 + rng.usize_below(32767) };
                 let bps = if rng.chance(1, 3) { odd(&mut rng, 16, 24) } else { *rng.pick(&[8usize, 12, 16, 20, 24, 32, 9, 17]) };
-                let rate = if rng.chance(1, 3) { odd(&mut rng, 44100, 96000) } else { *rng.pick(&[0usize, 1, 44100, 96000, 96001, 655_350, 655_351, 1_000_000, (1 << 32) + 44100]) };
+                // (every class of the header's rate field: table entries, whole kHz outside the
+                // table, tens of Hz, plain Hz, values with no code at all)
+                let rate = if rng.chance(1, 3) { odd(&mut rng, 44100, 96000) } else { *rng.pick(&[0usize, 1, 44100, 96000, 96001, 655_350, 655_351, 1_000_000, (1 << 32) + 44100, 1000, 11_000, 12_000, 64_000, 255_000, 256_000, 37_800, 18_900, 95_990, 65_535, 65_536, 65_537, 8000, 22_050, 88_200, 176_400, 192_000]) };
                 let ch = match rng.usize_below(6) {
                     0 => ChannelAssignment::Independent(0),
                     1 => ChannelAssignment::Independent(9),
